@@ -368,4 +368,4 @@ def run(ck, F, tier):
 
     # F8: the posterior clause needs the exact check rules (phi / tanh) to be the box-plus: their C04 structure rules
     from . import c04
-    c04.run(RuleAlias(ck, "F8", only=lambda r_, k_: r_ in ("K1", "K2") and k_.startswith(("Phif", "Tanhf"))), F, "quick", only=("K1", "K2"))
+    c04.run(RuleAlias(ck, "F8", only=lambda r_, k_: r_ in ("K1", "K2", "K4") and k_.startswith(("Phif", "Tanhf"))), F, "quick", only=("K1", "K2", "K4"))
